@@ -1,4 +1,8 @@
 use engine::Property;
+pub mod c03;
+pub mod c04;
+pub mod ef;
+
 pub fn properties() -> Vec<Box<dyn Property>> {
-    vec![]
+    vec![Box::new(c03::C03), Box::new(c04::C04)]
 }
